@@ -127,7 +127,12 @@ fn damage(rng: &mut Rng, r: &Row) -> (String, &'static str) {
         }
         8 => (format!("{} ,{},{}", r.cp_field, r.prop_field, r.model.desc), "blank after the code point"),
         9 => {
-            let big = 0x110000u64 + rng.next() % 0xFFFF_0000;
+            let big = if rng.chance(1, 2) {
+                0x110000u64 + rng.next() % 0xFFFF_0000
+            } else {
+                // nine or more hex digits whose low 32 bits would be a valid code point
+                ((1 + rng.next() % 0xFFFF) << 32) | (rng.next() % 0x110000)
+            };
             let f = if r.model.is_range { format!("{:04X}-{:X}", r.model.lo, big) } else { format!("{:X}", big) };
             (format!("{},{},{}", f, r.prop_field, r.model.desc), "code point beyond U+10FFFF")
         }
@@ -352,6 +357,63 @@ pub fn run(env: &Env) -> Rec {
         }
     });
     rec.merge(r2);
+    // whole-file shapes: a file with more than 65,536 rows (malformed rows late in the file must still carry the
+    // right line number), and rows longer than any read buffer
+    {
+        let mut rng = Rng::stream(env.seed, 0x17_F000);
+        let nrows = env.n(70_000, 300_000);
+        let mut text = String::from("Codepoint,Property,Description\n");
+        let mut expect: Vec<Result<Parsed, Option<u64>>> = Vec::new();
+        for i in 0..nrows {
+            let r = gen_row(&mut rng);
+            let special = i == 254 || i == 255 || i == 65_533 || i == 65_534 || i == 65_535 || i + 1 == nrows || i % 9973 == 0;
+            if special && i % 2 == 0 {
+                let (bad, _) = damage(&mut rng, &r);
+                if !bad.is_empty() {
+                    text.push_str(&bad);
+                    text.push('\n');
+                    expect.push(Err(Some(i as u64 + 2)));
+                    continue;
+                }
+            }
+            let mut m = r.model.clone();
+            if i % 7919 == 0 {
+                // a description far longer than a BufReader buffer, with commas
+                m.desc = format!("{},{}", "long description, ".repeat(if i % (2 * 7919) == 0 { 1200 } else { 4000 + (i % 5) * 3000 }), i);
+            }
+            let line = format!("{},{},{}", r.cp_field, r.prop_field, m.desc);
+            text.push_str(&line);
+            text.push('\n');
+            m.desc.push('\n');
+            expect.push(Ok(m));
+        }
+        let path = env.out_dir.join(format!("c17-big-{}.csv", std::process::id()));
+        if std::fs::write(&path, &text).is_ok() {
+            let got = parse_file(&path);
+            let _ = std::fs::remove_file(&path);
+            rec.evals(nrows as u64);
+            rec.nontrivial("file:more-than-65536-rows", &nrows, || format!("{} rows, {} malformed", nrows, expect.iter().filter(|e| e.is_err()).count()));
+            match got {
+                Out::Ok(Ok(items)) => {
+                    if let Some(i) = (0..expect.len().max(items.len())).find(|i| expect.get(*i) != items.get(*i)) {
+                        rec.violation(
+                            "csv-file-items-differ",
+                            Witness {
+                                op: "CsvLineParser over a long file".into(),
+                                case: format!("bigfile=1;seed={};row={}", env.seed, i + 2),
+                                expected: format!("{:?}", expect.get(i)).chars().take(300).collect(),
+                                observed: format!("{:?} ({} items)", items.get(i), items.len()).chars().take(300).collect(),
+                            },
+                        );
+                    }
+                }
+                o => rec.violation(
+                    "csv-file-items-differ",
+                    Witness { op: "CsvLineParser over a long file".into(), case: format!("bigfile=1;seed={}", env.seed), expected: "items".into(), observed: format!("{:?}", o).chars().take(300).collect() },
+                ),
+            }
+        }
+    }
     // the registry snapshot itself, row by row against the own parser
     let own: Vec<CsvRow> = ucd::parse_csv(&ucd::csv_path());
     let got = parse_file(&ucd::csv_path());
